@@ -7,6 +7,7 @@ import GeonumModel.Lemmas.Exact
 import GeonumModel.Lemmas.FloatTrig
 import GeonumModel.Lemmas.GeonumMag
 import GeonumModel.Lemmas.FloatMetric
+import GeonumModel.Spec.RoundWitness
 
 set_option linter.unusedSectionVars false
 set_option linter.unusedVariables false
@@ -173,5 +174,18 @@ end E
 /-! PARTIAL (not yet stated): a·a = |a|² in exact arithmetic (the float statement is checked by `oracle.C09.dot`). -/
 
 example {F : Type} [FloatSpec F] : (0 : ℝ) ≤ val (one : F) := by rw [val_one]; norm_num
+
+
+/-! ### R — on the arithmetic that really rounds (`R64`: round-to-nearest on the binary64 grid, correctly rounded libm) -/
+section R
+
+/-- (R) the dot product is symmetric up to the stated bound, for all pairs of binary64 numbers in the domain -/
+theorem dot_symm_rounded {a b : Geonum R64} (ha : a.angle.Inv) (hb : b.angle.Inv) (hma : a.MagDom) (hmb : b.MagDom) :
+    |(fmul (fmul a.mag b.mag) (FloatLike.cos (b.angle.geometricSub a.angle).gradeAngle)).v
+      - (fmul (fmul b.mag a.mag) (FloatLike.cos (a.angle.geometricSub b.angle).gradeAngle)).v|
+      ≤ 2 * (a.mag.v * b.mag.v * ((e10 : R64).v + 1 / 10 ^ 14) + 1 / 10 ^ 29) :=
+  dot_symm_float (F := R64) ha hb hma hmb
+
+end R
 
 end GeonumModel.C09
